@@ -136,6 +136,22 @@ impl ast::BinOpKind {
     }
 }
 
+impl ast::BinOpKind {
+    /// Check for operations that have no defined value (integer division by zero),
+    /// on which [`Self::const_eval`] would panic.
+    pub fn const_eval_is_undefined(&self, a: &ScalarValue, b: &ScalarValue) -> bool {
+        matches!(self, token![binop /] | token![binop %])
+            && matches!((a, b), (ScalarValue::Int(_), ScalarValue::Int(0)))
+    }
+}
+
+pub fn const_division_by_zero_error(span: crate::pos::Span) -> crate::diagnostic::Diagnostic {
+    error!(
+        message("const evaluation error"),
+        primary(span, "division by zero"),
+    )
+}
+
 fn handle_shift_rhs(x: i32) -> u32 {
     // FIXME: we would ideally warn on x out of range but it's hard to get an emitter here...
     //        (also it might warn multiple times)
@@ -233,6 +249,10 @@ impl ast::VisitMut for Visitor<'_, '_> {
 
             ast::Expr::BinOp(a, op, b) => {
                 if let (Some(a_value), Some(b_value)) = (a.to_const(), b.to_const()) {
+                    if op.const_eval_is_undefined(&a_value, &b_value) {
+                        self.errors.set(self.ctx.emitter.emit(const_division_by_zero_error(e.span)));
+                        return;
+                    }
                     e.value = op.const_eval(a_value, b_value).into();
                 };
             },
